@@ -34,7 +34,44 @@ EXPLANATION = __doc__
 DISK = 'pcbasic/basic/devices/disk.py'
 
 
+def _masks_and_characters(ctx, rep):
+    """A mask is matched against a name field by field (trunk with trunk, extension with extension) everywhere a mask is
+    used, so `DATA.` matches the file DATA for KILL as it does for OPEN / FILES; the legal-character set is the DOS one."""
+    D = 'pcbasic/basic/devices/disk.py'
+    n = 0
+    for fn in ctx.idx.functions(D):
+        halves = {}
+        for a in own_nodes(fn):
+            if isinstance(a, ast.Assign) and isinstance(a.targets[0], ast.Tuple) and len(a.targets[0].elts) == 2 and isinstance(a.value, ast.Call) \
+                    and norm(a.value.func) == 'dos_splitext' and all(isinstance(e, ast.Name) for e in a.targets[0].elts):
+                for i, e in enumerate(a.targets[0].elts):
+                    halves[e.id] = i
+        split_lists = set(norm(a.targets[0]) for a in own_nodes(fn) if isinstance(a, ast.Assign) and isinstance(a.value, (ast.ListComp, ast.GeneratorExp))
+                          and isinstance(a.value.elt, ast.Call) and norm(a.value.elt.func) == 'dos_splitext')
+        for g in own_nodes(fn):
+            if isinstance(g, ast.comprehension) and isinstance(g.target, ast.Tuple) and len(g.target.elts) == 2 and norm(g.iter) in split_lists \
+                    and all(isinstance(e, ast.Name) for e in g.target.elts):
+                for i, e in enumerate(g.target.elts):
+                    halves[e.id] = i
+        for c in own_nodes(fn):
+            if isinstance(c, ast.Call) and norm(c.func) == 'dos_name_matches' and len(c.args) == 2:
+                n += 1
+                a0, a1 = c.args
+                ok = isinstance(a0, ast.Name) and isinstance(a1, ast.Name) and a0.id in halves and a1.id in halves and halves[a0.id] == halves[a1.id] and a0.id != a1.id
+                rep.ob('mask.matched-field-by-field', '%s: %s' % (fn.name, short(c, 60)), ok,
+                       'a mask is compared with something other than the same field of a split name: `NAME.` no longer matches the file NAME', ctx.where(c))
+    rep.floor('mask.matched-field-by-field', n, 3, 'calls of dos_name_matches')
+    allowed = ctx.const(D, 'ALLOWABLE_CHARS')
+    dos = set(b" !#$%&'()-@^_`{}~")
+    got = set(x if isinstance(x, int) else ord(x) for x in allowed) if isinstance(allowed, (set, frozenset, list, tuple, bytes)) else None
+    rep.ob('legal.character-set', 'ALLOWABLE_CHARS has every punctuation character DOS allows in a name', got is not None and dos <= got,
+           'missing: %r' % (bytes(sorted(dos - got)) if got is not None else None,), D)
+    rep.ob('legal.character-set', 'ALLOWABLE_CHARS has no separator or wildcard', got is not None and not (got & set(b'.*?/:;,=+<>|"[]' + bytes([92]))), '', D)
+
+
+
 def check(ctx, rep):
+    _masks_and_characters(ctx, rep)
     gn = ctx.fn(DISK + ':DiskDevice._get_native_name')
     fl = ctx.flow(gn)
     created = [r for r in own_nodes(gn) if isinstance(r, ast.Return) and 'norm_name' in norm(r.value)]
@@ -152,6 +189,12 @@ def variants(ctx):
         return lambda tree: f(mu.find_def(tree, f_name))
 
     return [
+        mu.Variant('kill-matches-whole-name-against-mask', 'break', 'pcbasic/basic/devices/disk.py',
+                   lambda tree: mu.replace_expr(mu.find_def(tree, 'DiskDevice.kill'), mu.text_is('dos_name_matches(trunk, trunkmask) and dos_name_matches(ext, extmask)'), 'dos_name_matches(dos_name, dos_mask)'),
+                   expect='mask.matched-field-by-field'),
+        mu.Variant('apostrophe-dropped-from-legal-characters', 'break', 'pcbasic/basic/devices/disk.py',
+                   lambda tree: mu.replace_expr(tree, lambda n: isinstance(n, ast.Constant) and isinstance(n.value, bytes) and n.value.startswith(b' !#$%&'), "b' !#$%&()-@^_`{}~'"),
+                   expect='legal.character-set'),
         Va('extension-before-strip', 'break', DISK, in_fn('DiskDevice._get_dos_name_defext', _strip_last), expect='defext.strip-before'),
         Va('any-trailing-dot-dropped', 'break', DISK,
            in_fn('DiskDevice._get_native_name', lambda fn: mu.replace_expr(fn, mu.text_is("dos_name[-1:] == b'.' and b'.' not in dos_name[:-1]"), "dos_name.endswith(b'.')")), expect='illegal.only-single'),
